@@ -92,6 +92,10 @@ static CO_ERR COTSyncIdWrite(struct CO_OBJ_T *obj, struct CO_NODE_T *node, void 
         /* SYNC producer activation */
         if (((nid & CO_SYNC_COBID_ON) != 0)) {
             sync->CobId = nid;
+            if (node->Error == CO_ERR_SYNC_RES) {
+                /* forget a former resolution error, it is evaluated below */
+                node->Error = CO_ERR_NONE;
+            }
             COSyncProdActivate(sync);
             if (node->Error == CO_ERR_SYNC_RES) {
                 /*
@@ -161,6 +165,11 @@ void COSyncProdActivate(CO_SYNC *sync)
         return;
     }
 
+    /* the tick conversion takes the period as 16 bit multiple of 100us */
+    if ((sync->Cycle / 100) > 0xFFFFu) {
+        node->Error = CO_ERR_SYNC_RES;
+        return;
+    }
     time = COTmrGetMinTime(&node->Tmr, CO_TMR_UNIT_100US);
     if ((time * 100) > sync->Cycle) {
         /* 
